@@ -87,8 +87,9 @@ Theorem C13_not_capped_keeps_enabled :
 Proof. exact not_capped_keeps_enabled. Qed.
 Print Assumptions C13_not_capped_keeps_enabled.
 
+(** While minting is disabled nothing is minted and nothing changes but the reference timestamp, which is forgotten. *)
 Theorem C13_no_mint_when_disabled :
-  forall s ts bonded, enabled s = false -> end_blocker s ts bonded = Some s.
+  forall s ts bonded, enabled s = false -> end_blocker s ts bonded = Some (set_prev s 0).
 Proof. exact no_mint_when_disabled. Qed.
 Print Assumptions C13_no_mint_when_disabled.
 
@@ -97,6 +98,33 @@ Theorem C13_first_block_only_records_ts :
     end_blocker s ts bonded = Some (set_prev s ts).
 Proof. exact first_block_only_records_ts. Qed.
 Print Assumptions C13_first_block_only_records_ts.
+
+(** "Nothing is minted ... on the first block after activation", over histories: the block that follows a block with
+    minting off mints nothing — whether this block's parameter change switches minting on again or not, whatever the
+    stored timestamp was before the pause — and, if minting is on, records its own time.  (Before 81b5da1 the stale
+    timestamp of the last minting block survived the pause and the first block after a re-activation minted for the
+    whole disabled period: finding F11.) *)
+Theorem C13_first_block_after_reactivation_mints_nothing :
+  forall s b1 s1 b2 s2,
+    block s b1 = Some s1 -> enabled (apply_params s (b_params b1)) = false -> block s1 b2 = Some s2 ->
+    supply s2 = supply s1 /\ fee_col s2 = fee_col s1 /\
+    (enabled (apply_params s1 (b_params b2)) = true -> prev_ts s2 = b_ts b2 /\ enabled s2 = true).
+Proof. exact block_after_disabled_block_mints_nothing. Qed.
+Print Assumptions C13_first_block_after_reactivation_mints_nothing.
+
+(** "elapsed measured between consecutive block timestamps": of two consecutive minting blocks the second one's formula
+    amount is computed with the first one's block time (the first block being an ordinary one: non-negative bonded
+    amount and rate, time not running backwards, supply not above the maximum). *)
+Theorem C13_elapsed_is_between_consecutive_blocks :
+  forall s b1 s1 b2 s2,
+    block s b1 = Some s1 -> block s1 b2 = Some s2 ->
+    let t1 := apply_params s (b_params b1) in let t2 := apply_params s1 (b_params b2) in
+    enabled t1 = true -> enabled t2 = true ->
+    0 <= b_bonded b1 -> 0 <= rc t1 -> prev_ts t1 <= b_ts b1 -> supply t1 <= max_supply t1 -> b_ts b1 <> 0 ->
+    the_mint t2 (b_ts b2) (b_bonded b2) =
+      block_mint (b_bonded b2) (rc t2) (b_ts b2) (b_ts b1) (year_ms (year_of_ms (b_ts b2))).
+Proof. exact elapsed_is_between_consecutive_blocks. Qed.
+Print Assumptions C13_elapsed_is_between_consecutive_blocks.
 
 (** Equal or decreasing block times mint nothing. *)
 Theorem C13_nonpositive_elapsed_mints_nothing :
@@ -155,7 +183,7 @@ Theorem C13_nonvacuous :
   run ex_cap [mkblk 1700000005000 1000000000000000000000000000 None;
               mkblk 1700000010000 1000000000000000000000000000 None;
               mkblk 1700000015000 1000000000000000000000000000 (Some (true, 7800000000000000000))]
-    = Some (mkst 1700000015000 (of_int 20000000000 + 1000) false 7800000000000000000
+    = Some (mkst 1700000015000 (of_int 20000000000 + 1000) true 7800000000000000000
                  (of_int 20000000000 + 1000) 1000 0).
 Proof. exact nonvacuous. Qed.
 Print Assumptions C13_nonvacuous.
